@@ -399,6 +399,14 @@ def gen_cases(ctx, rng, n_pairs, n_unary, n_full, n_near):
             cases.append(Case('UNI', head, last, family='nested', label='donuts-split'))
             cases.append(Case('UNI', last, head, family='nested', label='donuts-split/swap'))
             cases.append(Case('SYM', ('PG', D[pm[0]]), ('MPG', [D[j] for j in pm[1:]]), family='nested', label='donuts-split'))
+    # coverages whose gaps touch the outside or each other at single vertices (not ring starts; every ring rotation / direction)
+    for i in range(max(8, n_pairs // 8)):
+        cells = L.coverage_touching(rng)
+        if len(cells) < 2: continue
+        g = ('GC', [('PG', c) for c in cells]) if rng.random() < 0.5 else ('MPG', cells)
+        cases.append(Case('CU', g, family='coverage-touch', label='gaps-touching-at-vertices'))
+        if rng.random() < 0.3:
+            cases.append(Case('UU', ('GC', [('PG', c) for c in cells]), family='coverage-touch', label='gaps-touching-at-vertices'))
     # unary calls
     for i in range(n_unary):
         k = rng.random()
@@ -647,7 +655,7 @@ def run(ctx):
     for c in cases[:4]:
         ctx.sample(json.dumps(c.describe())[:400])
     # self-check of the generator: the case split of the specification must have been exercised
-    need = {'call': ['INT', 'UNI', 'DIF', 'SYM', 'UU', 'UC', 'DSU', 'CU', 'CLIP'], 'family': ['grid', 'full', 'near', 'unary', 'clip', 'disjoint-gc', 'hole-contact', 'long-lines', 'nested']}
+    need = {'call': ['INT', 'UNI', 'DIF', 'SYM', 'UU', 'UC', 'DSU', 'CU', 'CLIP'], 'family': ['grid', 'full', 'near', 'unary', 'clip', 'disjoint-gc', 'hole-contact', 'long-lines', 'nested', 'coverage-touch']}
     for k, vs in need.items():
         for v in vs:
             if dist[k].get(v, 0) == 0:
